@@ -2,8 +2,13 @@
 
 package mrpc
 
-import "net"
+import (
+	"net"
+	"net/rpc"
+)
 
 // No-op counterpart of the verification hook in verif_hooks.go.
 
 func verifConn(serverAddr string, conn net.Conn) {}
+
+func verifServerCodecFor(serverAddr string, codec rpc.ServerCodec) rpc.ServerCodec { return codec }
